@@ -8,6 +8,7 @@ import VsgModel.Check.Verdict
 import VsgModel.Generated.Rules
 import VsgProofs.Lemmas.Engine
 import VsgProofs.Lemmas.BaseAlign
+import VsgProofs.Lemmas.BaseLineStruct
 import VsgModel.Base.Dispatch
 import VsgProofs.Lemmas.BaseWsEffects
 import VsgModel.Engine.PostPhase1
@@ -95,6 +96,17 @@ theorem bfix_align_layoutOnly (owner : String) (params action : Base.KV) (old ne
     | ok adj =>
       simp only [h1, h2, bind, Except.bind] at h
       exact Base.Align.fixV_layoutOnly _ _ _ _ _ h
+
+/-- layer B, line-structure family: the line-break inserting base classes
+    (insert_carriage_return_after_token…, split_line_at_token…) and the line-break removing ones
+    (remove_carriage_return_after_token, remove_carriage_returns_between_token_pairs) — 54 phase-1
+    `structure` rules — change nothing but whitespace / carriage-return tokens, for every action
+    (also negative and out-of-range insert indices) and every region -/
+theorem bfix_lineBreak_layoutOnly (owner : String) (params action : Base.KV) (old new : List Tok)
+    (ho : owner ∈ Base.LineStruct.breakOwners ++ Base.LineStruct.removeCrOwners)
+    (h : Base.fixByOwner owner params action old = some (.ok new)) : LayoutOnly old new := by
+  rw [Base.LineStruct.fixByOwner_lineStruct owner params action old (Base.LineStruct.layoutOwners_sub_all ho)] at h
+  exact (Base.LineStruct.dispatch_layout _ owner params action old new ho h).1
 
 /-- the rules served by that model are documented layout rules (alignment group) -/
 theorem align_owners_are_layout_rules : ∀ r ∈ Gen.ruleTable, r.fixVOwner ∈ Base.alignOwners →
